@@ -17,7 +17,7 @@ func init() {
 		NeedSSA: true,
 		Decided: "every potentially blocking operation in the repository functions reachable from the public routing operations has an escape (context/timer/default arm), a covering buffer, a counted or closing partner, or a reviewed reason — an operation in none of these classes is a violation (R1); channel capacities cover their senders (R2); the counted completion wait of the optimistic provide is unreachable when no RPC was issued (R3); " +
 			"result channels are closed by a defer registered before any return, or on every path (R4); internal panic sites are unreachable given local guards: no state update after termination, legal state transitions, exhaustive reason strings, unlock only when locked (R5); the follow-up drains its workers (R6); the accelerated fan-out returns early on an empty list and its workers signal exactly once (R7); " +
-			"a lookup joins its workers and cancels them on termination (R8); the lookup's channel capacity is at least 1 (R9); abort verdicts are never dropped, so a stop channel is closed once (R10); the watcher context of the optimistic provide lives until the function returns (R11). Added after the seeded rounds: the provider-search channels of both clients are closed on every exit and owned by the entry point (R4); optimistic provide starts one put per peer (R12, shared C06.R7); the dual provider search runs its inner searches under the request context its merger cancels (R13, shared C08.R5).",
+			"a lookup joins its workers and cancels them on termination (R8); the lookup's channel capacity is at least 1 (R9); abort verdicts are never dropped, so a stop channel is closed once (R10); the watcher context of the optimistic provide lives until the function returns (R11). Added after the seeded rounds: the provider-search channels of both clients are closed on every exit and owned by the entry point (R4); optimistic provide starts one put per peer (R12, shared C06.R7); the dual provider search runs its inner searches under the request context its merger cancels (R13, shared C08.R5). Round 4: a worker of the standard client's value search can abandon its send once the search was stopped (R14, defect D19).",
 		NotDecided: "wall-clock bounds, promptness, deadline budgeting arithmetic; liveness in general (a shape argument shows absence of escape-less waits, not progress).",
 	})
 }
